@@ -731,7 +731,9 @@ def spelling_docs(a):
     tok = ''.join({'*': '*', '[': '', '{': '\\bar '}[c] for c in a)
     return ['\\foo' + full + 'z', '\\foo' + spaced + ' z', '\\foo ' + bare + ' {t}', '\\foo' + tok + '.',
             'a\\foo' + full[:max(0, len(full) - 2)], '{\\foo' + full + '}', '$\\foo' + full + '$ \\foo', '\\foo[{]}]{{}}*[',
-            '\\foo\n\n' + full, '\\foo%c\n' + full]
+            '\\foo\n\n' + full, '\\foo%c\n' + full,
+            # the spelled macro as a direct child of a bracket-delimited argument of another macro
+            '\\opt[\\foo' + full + ' z]{y}', '\\opt[a \\foo' + full + ']{y}w']
 
 
 def _parse_doc(spec, s, tol):
@@ -743,6 +745,7 @@ def _parse_doc(spec, s, tol):
         db.add_context_category('a', environments=[spec])
     else:
         db.add_context_category('a', macros=[spec])
+    db.add_context_category('b', macros=[MacroSpec('opt', '[{')])
     db.set_unknown_macro_spec(MacroSpec(''))
     w = LatexWalker(s, latex_context=db, tolerant_parsing=tol)
     try:
